@@ -1,6 +1,7 @@
 from ..filegen import file_case, bundled, small_bundled
 from ..gen import hexs
 from ..runner import Case, Property
+from .. import core
 
 
 class C01(Property):
@@ -33,7 +34,7 @@ class C01(Property):
         "harness profile: release with debug-assertions and overflow-checks on, panic=unwind, every request under catch_unwind (a crash of the process is bisected and reported as CRASH)",
     ]
     assumptions = ["curve / slider-event loops run with fuel 2·10^6 / 10^7 in the model; exhaustion is reported as `fuel-exhausted`, never defaulted",
-                   "the `tracing` feature build is not exercised by the quick tier"]
+                   "the `tracing` feature set is exercised by a second harness build (no subscriber installed) whose observations must equal the default build's on every correspondence case"]
     nontrivial_rule = "byte strings from the file families; non-trivial = the Beatmap decoder produced at least one hit object or control point"
 
     def gen(self, rng, tier):
@@ -55,6 +56,18 @@ class C01(Property):
             for k in range(0, len(d), step):
                 cases.append(Case("total " + hexs(d[:k]), corr=False, tags=("truncate",)))
         return cases
+
+    def post(self, tier, corr_cases, impl_out):
+        """{default, tracing} feature sets: the build with rosu-map's `tracing` feature must give the same
+        observation on every correspondence case (and must not panic while logging the errors)"""
+        core.build_harness_tracing()
+        outs = core.run_lines(core.HARNESS_TRACING_BIN, "impl", [c.line for c in corr_cases])
+        bad = []
+        for c, a, b in zip(corr_cases, impl_out, outs):
+            if a != b:
+                bad.append((c, f"FAIL tracing build differs: default [{a[:200]}] tracing [{b[:200]}]"))
+        self._tracing_compared = len(corr_cases)
+        return bad
 
     def is_nontrivial(self, case, impl_out):
         return impl_out.startswith("ok") and len(impl_out) > 600
